@@ -177,30 +177,34 @@ Definition nl_create (size : Z) : res unit :=
   else if ALLOC_LIMIT <? size then Trap
   else Val tt.
 
-(* string.rep without separator: string.create(n * s.size) multiplies in usize; the loop then writes
-   n * s.size bytes *)
+(* string.rep without separator (after b10c461):  assert(s.size <= (@usize)(-1) // n) ; then
+   string.create(n * s.size) and the loop writes n * s.size bytes *)
 Definition nl_rep (s : bytes) (n : Z) : res bytes :=
   if n <=? 0 then Val []
   else if n =? 1 then Val s
   else
     let size := slen s in
     if size =? 0 then Val [] else
+    if (two64 - 1) / n <? size then Trap                  (* 'resulting string too large' *)
+    else
     let alloc := u64 (n * size) in
     match nl_create alloc with
     | Trap => Trap
     | Unsafe => Unsafe
     | Val _ =>
-        if alloc <? n * size then Unsafe                  (* the copy loop runs past the buffer *)
+        if alloc <? n * size then Unsafe                  (* the copy loop would run past the buffer *)
         else Val (repeat_bytes (Z.to_nat n) s)
     end.
 
-(* string.rep with separator *)
+(* string.rep with separator:  assert(partsize >= s.size and partsize <= (@usize)(-1) // n) *)
 Definition nl_rep_sep (s : bytes) (n : Z) (sep : bytes) : res bytes :=
   if n <=? 0 then Val []
   else if n =? 1 then Val s
   else
     let partsize := u64 (slen s + slen sep) in
     if partsize <=? 0 then Val [] else
+    if negb ((slen s <=? partsize) && (partsize <=? (two64 - 1) / n)) then Trap
+    else
     let alloc := u64 (u64 (n * partsize) - slen sep) in
     match nl_create alloc with
     | Trap => Trap
@@ -247,14 +251,19 @@ Definition nl_abs (n : Z) : Z := if n <? 0 then lneg n else n.
 
 (* math_fmod, integer case *)
 Definition lua_fmod (m d : Z) : lres Z :=
-  if u64 d + 1 <=? 1 then                      (* (lua_Unsigned)d + 1u <= 1u : d is 0 or -1 *)
+  if u64 (u64 d + 1) <=? 1 then                (* (lua_Unsigned)d + 1u <= 1u, unsigned wrap: d is 0 or -1 *)
     (if d =? 0 then LErr else LVal 0)
   else LVal (Z.rem m d).
-(* math.fmod, integer case:  z = x % y  in C: division by zero and INT64_MIN % -1 are undefined *)
-Definition nl_fmod (x y : Z) : res Z :=
+(* C:  x % y  on int64: division by zero and INT64_MIN % -1 are undefined *)
+Definition c_rem (x y : Z) : res Z :=
   if y =? 0 then Unsafe
   else if (x =? minint) && (y =? -1) then Unsafe
   else Val (Z.rem x y).
+(* math.fmod, integer case (after 5a6ed3d):  assert(y ~= 0);  if y == -1 then return 0 end;  z = x % y *)
+Definition nl_fmod (x y : Z) : res Z :=
+  if y =? 0 then Trap
+  else if y =? -1 then Val 0
+  else c_rem x y.
 
 (* math_ult *)
 Definition lua_ult (a b : Z) : bool := u64 a <? u64 b.
@@ -265,9 +274,9 @@ Fixpoint lua_max_l (acc : Z) (l : list Z) : Z :=
   match l with [] => acc | x :: r => lua_max_l (if acc <? x then x else acc) r end.
 Fixpoint lua_min_l (acc : Z) (l : list Z) : Z :=
   match l with [] => acc | x :: r => lua_min_l (if x <? acc then x else acc) r end.
-(* math.max: two arguments  y < x and x or y ; more:  if res < v then res = v *)
-Definition nl_max2 (x y : Z) : Z := if y <? x then x else y.
-Definition nl_min2 (x y : Z) : Z := if x <? y then x else y.
+(* math.max: two arguments (after 873f3b9)  x < y and y or x ; more:  if res < v then res = v *)
+Definition nl_max2 (x y : Z) : Z := if x <? y then y else x.
+Definition nl_min2 (x y : Z) : Z := if y <? x then y else x.
 Fixpoint nl_max_l (acc : Z) (l : list Z) : Z :=
   match l with [] => acc | v :: r => nl_max_l (if acc <? v then v else acc) r end.
 Fixpoint nl_min_l (acc : Z) (l : list Z) : Z :=
